@@ -45,7 +45,9 @@ def build() -> dict:
     for p in props:
         pid = p["id"]
         f = ROOT / "pvm" / "checks" / f"{pid.lower()}.py"
-        if not f.exists():
+        ready_file = ROOT / "pvm" / "ready.txt"
+        ready = set(ready_file.read_text().split()) if ready_file.exists() else None
+        if not f.exists() or (ready is not None and pid not in ready):
             na.append({"property_id": pid,
                        "reason": NOT_CLAIMED.get(pid, "check not implemented yet (runtime "
                                                   "monitor designed in DESIGN.md section 6, "
